@@ -112,8 +112,8 @@ def write_table(out, todo, tier):
         other = '; '.join('%s exit %d %s' % (p, v['rc'], v['problem'][:80]) for p, v in e['checks'].items() if v['rc'] not in (0, 1))
         lines.append('| %s: %s | %s | %s | %s | %s | %s %s |' % (mid, title.replace('|', '/')[:140], brk, needs.replace('|', '/').replace('\n', ' ')[:200], ' '.join(e['checks']),
                                                               ' '.join(e['caught_by']) or '**none**', first.replace('|', '/')[:160], other))
-    open(os.path.join(sd, 'RESULTS.md'), 'w').write('\n'.join(lines) + '\n')
-    print('wrote seeded/RESULTS.md')
+    open(os.path.join(sd, os.environ.get('VERIF_TABLE_NAME', 'RESULTS.md')), 'w').write('\n'.join(lines) + '\n')
+    print('wrote seeded/' + os.environ.get('VERIF_TABLE_NAME', 'RESULTS.md'))
 
 
 if __name__ == '__main__':
